@@ -87,6 +87,22 @@ func (e *Enc) call(fr *Frame, x *ssa.Call, st *State) {
 		e.libraryCall(fr, x, callee, args, st)
 		return
 	}
+	if con := e.contractAtCall(callee); con != nil && con.iter != nil {
+		if e.callbackLoop(fr, x, callee, con, args, st) {
+			return
+		}
+		// an iterating function called without callback clauses: what the function passed in does is unknown
+		e.lazyViolation(fr, x, st, "call of "+shortFuncName(callee)+" (iterates a callback)")
+		e.note("iterating call without callback clauses: " + shortFuncName(callee))
+		for _, a := range args {
+			for _, t := range a.T {
+				e.markEscaped(t, 0)
+			}
+		}
+		e.havocResults(fr, x, "r_"+callee.Name())
+		e.havocAll(st, "call "+callee.Name()+" with a callback")
+		return
+	}
 	if con := e.contractAtCall(callee); con != nil && !(con.inlineOK && e.inlinable(callee)) {
 		if con.opts["evaluates"] == "true" {
 			e.lazyViolation(fr, x, st, "call of "+shortFuncName(callee)+", which evaluates list elements")
@@ -1267,7 +1283,7 @@ func (e *Enc) closureAtCreation(fr *Frame, x *ssa.MakeClosure, c *Term, st *Stat
 	// loop invariants of the literal: a `closure <Func> anchor "<same anchor>"` block
 	var lcon *FuncContract
 	if own := e.L.contracts.funcs[con.pkg+"::"+con.key+"@"+spec.anchor]; own != nil {
-		lcon = &FuncContract{pkg: own.pkg, key: own.key, kind: "closure-body", invs: own.invs, variants: own.variants, opts: map[string]string{}}
+		lcon = &FuncContract{pkg: own.pkg, key: own.key, kind: "closure-body", invs: own.invs, variants: own.variants, callbacks: own.callbacks, opts: map[string]string{}}
 		own.used = true
 	}
 	res, out, sub := e.encodeFunc(fn, args, binds, entry, fr, lcon, nil)
@@ -1469,6 +1485,38 @@ func (e *Enc) envAt(fr *Frame, st *State, head *ssa.BasicBlock) *evalEnv {
 				continue // an earlier candidate is deeper in the dominator tree
 			}
 			best[id.Name] = cand{b: b, sv: sv}
+		}
+	}
+	// variables that live in a cell (address taken: captured by a literal, named results, ...): the name denotes the
+	// current content of the cell, whatever value a DebugRef recorded when it was assigned
+	for _, b := range fr.fn.Blocks {
+		if at != nil && !b.Dominates(at) {
+			continue
+		}
+		for _, in := range b.Instrs {
+			al, ok := in.(*ssa.Alloc)
+			if !ok || al.Comment == "" || !token.IsIdentifier(al.Comment) {
+				continue
+			}
+			av, okv := fr.vals[al]
+			if !okv {
+				continue
+			}
+			pt, okp := al.Type().Underlying().(*types.Pointer)
+			if !okp {
+				continue
+			}
+			if _, isParam := env.vars[al.Comment]; isParam {
+				if _, cand := best[al.Comment]; !cand {
+					// parameter cells are handled above
+					continue
+				}
+			}
+			if prev, exists := best[al.Comment]; exists && prev.b != b && !prev.b.Dominates(b) {
+				continue
+			}
+			ad := e.addrOf(av, pt.Elem())
+			best[al.Comment] = cand{b: b, sv: SV{t: e.load(st, ad), typ: pt.Elem(), addr: ad}}
 		}
 	}
 	for name, c := range best {
@@ -1695,6 +1743,271 @@ func addrNotStored(a ssa.Value, d int) bool {
 				return false
 			}
 		}
+	}
+	return true
+}
+
+// ---------- function literals passed to iterating functions (callbacks as loop bodies) ----------
+
+// callbackLoop encodes `Iter(func(k, v) bool { body })`, where the callee's contract says `iterates yield count N args
+// A1, A2` and the caller's contract has `callback "<anchor>" invariant E` clauses for this call, like the loop
+//
+//	for cbidx := 0; cbidx < N; cbidx++ { if !body(A1, A2) { break } }
+//
+// with E as loop invariant over cbidx: E(0) is proved before the call, the body of the literal is encoded once for an
+// arbitrary cbidx under E(cbidx) and must re-establish E(cbidx+1) when it returns true (and the `stopped` clauses when
+// it returns false); afterwards E(N) or the stopped clauses hold. Returns false if the call does not have this shape.
+func (e *Enc) callbackLoop(fr *Frame, x *ssa.Call, callee *ssa.Function, con *FuncContract, args []Val, st *State) bool {
+	tb := e.tb
+	it := con.iter
+	// which argument is the callback
+	pos := -1
+	for i, p := range callee.Params {
+		if p.Name() == it.param {
+			pos = i
+		}
+	}
+	if pos < 0 || pos >= len(x.Call.Args) {
+		return false
+	}
+	var mc *ssa.MakeClosure
+	v := x.Call.Args[pos]
+	for mc == nil {
+		switch u := v.(type) {
+		case *ssa.MakeClosure:
+			mc = u
+		case *ssa.ChangeType:
+			v = u.X
+		default:
+			return false
+		}
+	}
+	if _, created := fr.vals[mc]; !created {
+		return false
+	}
+	// the caller's clauses for this call
+	site := e.srcText(fr.fn, x.Pos(), isCallExpr)
+	var cb *callbackSpec
+	owner := fr.con
+	for f := fr; f != nil && cb == nil; f = f.parent {
+		if f.con == nil {
+			continue
+		}
+		for _, c := range f.con.callbacks {
+			if strings.Contains(site, c.anchor) {
+				cb, owner = c, f.con
+			}
+		}
+	}
+	if cb == nil {
+		return false
+	}
+	_ = owner
+	body := mc.Fn.(*ssa.Function)
+	if len(body.Params) != len(it.args) {
+		e.contractError(fr, "callback:"+cb.anchor, fmt.Errorf("the literal takes %d parameters, the callee yields %d", len(body.Params), len(it.args)))
+		return false
+	}
+	label := cb.anchor
+	var binds []Val
+	for _, b := range mc.Bindings {
+		binds = append(binds, e.val(fr, b))
+	}
+	// the callee's own preconditions
+	pre := st.clone()
+	cenv0 := e.envForCall(callee, args, nil, st, &pre)
+	for k, cl := range con.requires {
+		t, err := cenv0.evalBool(cl.expr)
+		if err != nil {
+			e.contractError(fr, "callpre:"+shortFuncName(callee), err)
+			continue
+		}
+		q := e.oblige("callpre", shortFuncName(callee)+"."+clauseLabel("requires", k, cl)+":"+label, st, t, x.Pos(), e.inputVals()...)
+		q.Text = cl.text
+	}
+	nT, err := cenv0.evalAny(it.count)
+	if err != nil || nT.t == nil || nT.t.sort != "Int" {
+		e.contractError(fr, "callback:"+label, fmt.Errorf("count: %v", err))
+		return false
+	}
+	n := nT.t
+	invEnv := func(s *State, idx *Term) *evalEnv {
+		env := e.envAt(fr, s, nil)
+		env.vars["cbidx"] = SV{t: idx, typ: types.Typ[types.Int]}
+		return env
+	}
+	// E(0) before the call
+	for k, inv := range cb.invs {
+		t, err := invEnv(st, tb.Int(0)).evalBool(inv.expr)
+		if err != nil {
+			e.contractError(fr, fmt.Sprintf("callback:%s.inv%d", label, k+1), err)
+			continue
+		}
+		q := e.oblige("callback-entry", fmt.Sprintf("%s.inv%d", label, k+1), st, t, x.Pos(), e.inputVals()...)
+		q.Text = inv.text
+		e.addProps(q, fr.con, inv.props)
+	}
+	// what one call of the literal can write: its own stores (captured variables are cells) and its callees' frames
+	ws := &writeSet{regs: map[string]bool{}, scope: fr.fn}
+	cellWritten := map[int]bool{} // captured variables (cells) the literal assigns directly: havocked one by one
+	var collect func(f *ssa.Function, depth int)
+	collect = func(f *ssa.Function, depth int) {
+		for _, b := range f.Blocks {
+			for _, in := range b.Instrs {
+				if sto, ok := in.(*ssa.Store); ok && depth == 0 {
+					if fv, isFV := sto.Addr.(*ssa.FreeVar); isFV {
+						for i, v := range body.FreeVars {
+							if v == fv {
+								cellWritten[i] = true
+							}
+						}
+						continue
+					}
+				}
+				e.instrWrites(in, ws, 0)
+			}
+		}
+		if depth < 3 {
+			for _, a := range f.AnonFuncs {
+				collect(a, depth+1)
+			}
+		}
+	}
+	collect(body, 0)
+	if ws.all {
+		e.note("callback literal with unknown effect: " + label)
+		return false
+	}
+	havocCells := func(s *State, why string) {
+		for i := range body.FreeVars {
+			if !cellWritten[i] || i >= len(binds) {
+				continue
+			}
+			ref := binds[i].t()
+			done := false
+			for _, a := range e.allocs {
+				if a.ref == ref {
+					for _, r := range e.allocRegs(a) {
+						_, es := arrayElemSort(r.sort)
+						nv := tb.Fresh("hv_"+why+"_"+body.FreeVars[i].Name(), es)
+						e.setReg(s, r, tb.Store(e.reg(s, r), ref, nv))
+					}
+					done = true
+				}
+			}
+			if !done { // not a cell this unit allocated (a free variable of an enclosing literal): its register
+				if pt, ok := body.FreeVars[i].Type().Underlying().(*types.Pointer); ok {
+					r := e.ptrReg(pt.Elem())
+					_, es := arrayElemSort(r.sort)
+					e.setReg(s, r, tb.Store(e.reg(s, r), ref, tb.Fresh("hv_"+why+"_"+body.FreeVars[i].Name(), es)))
+				}
+			}
+		}
+	}
+	e.modelled("function literals passed to an iterating function are verified as loop bodies (callee contract `iterates`): " + shortFuncName(callee))
+	// the enclosing function's frame (assigns clause) is carried through the iteration like through a loop
+	frameRegs := e.loopFrameRegs(fr, ws)
+	if len(frameRegs) > 0 {
+		if f := e.loopFrame(fr, st, frameRegs); f != nil && !tb.isTrue(f) {
+			e.oblige("callback-entry", label+".frame", st, f, x.Pos()).Text = "implicit invariant: the function's frame (assigns clause) holds before the iteration"
+		}
+	}
+	// an arbitrary iteration
+	iterSt := st.clone()
+	e.havocWrites(&iterSt, ws, "cb_"+sanitize(label))
+	havocCells(&iterSt, "cb")
+	if len(frameRegs) > 0 {
+		if f := e.loopFrame(fr, &iterSt, frameRegs); f != nil {
+			e.assume(iterSt.reach, f)
+		}
+	}
+	idx := tb.Fresh("cbidx", "Int")
+	e.assume(iterSt.reach, tb.And(tb.Le(tb.Int(0), idx), tb.Lt(idx, n)))
+	for _, inv := range cb.invs {
+		if t, err := invEnv(&iterSt, idx).evalBool(inv.expr); err == nil {
+			e.assume(iterSt.reach, t)
+		}
+	}
+	// the arguments of this call of the literal
+	cenv := e.envForCall(callee, args, nil, &iterSt, &pre)
+	cenv.vars["cbidx"] = SV{t: idx, typ: types.Typ[types.Int]}
+	var bargs []Val
+	for i, ax := range it.args {
+		sv, err := cenv.evalAny(ax)
+		if err != nil {
+			e.contractError(fr, "callback:"+label, err)
+			return false
+		}
+		if sv.t.sort != e.sortOf(body.Params[i].Type()) {
+			e.contractError(fr, "callback:"+label, fmt.Errorf("argument %d of the literal has sort %s, the callee yields %s", i, e.sortOf(body.Params[i].Type()), sv.t.sort))
+			return false
+		}
+		e.assumeWF(tb.True(), body.Params[i].Type(), sv.t)
+		bargs = append(bargs, Val{T: []*Term{sv.t}})
+	}
+	savedCtx, savedStack := e.ctx, e.stack
+	resv, out, sub := e.encodeFunc(body, bargs, binds, iterSt, fr, nil, nil)
+	e.ctx, e.stack = savedCtx, savedStack
+	fr.panics = append(fr.panics, sub.panics...)
+	cont := tb.True()
+	if len(resv) == 1 && resv[0].sort == "Bool" {
+		cont = resv[0]
+	}
+	contSt := out.clone()
+	contSt.reach = tb.And(out.reach, cont)
+	for k, inv := range cb.invs {
+		t, err := invEnv(&contSt, tb.Add(idx, tb.Int(1))).evalBool(inv.expr)
+		if err != nil {
+			continue
+		}
+		q := e.oblige("callback-preserved", fmt.Sprintf("%s.inv%d", label, k+1), &contSt, t, x.Pos(), e.inputVals()...)
+		q.Text = inv.text
+		e.addProps(q, fr.con, inv.props)
+	}
+	if len(frameRegs) > 0 {
+		if f := e.loopFrame(fr, &out, frameRegs); f != nil && !tb.isTrue(f) {
+			e.oblige("callback-preserved", label+".frame", &out, f, x.Pos()).Text = "implicit invariant: the function's frame (assigns clause) is preserved by one call of the literal"
+		}
+	}
+	stopSt := out.clone()
+	stopSt.reach = tb.And(out.reach, tb.Not(cont))
+	for k, cl := range cb.stopped {
+		t, err := invEnv(&stopSt, idx).evalBool(cl.expr)
+		if err != nil {
+			e.contractError(fr, fmt.Sprintf("callback:%s.stopped%d", label, k+1), err)
+			continue
+		}
+		e.oblige("callback-preserved", fmt.Sprintf("%s.stopped%d", label, k+1), &stopSt, t, x.Pos(), e.inputVals()...).Text = cl.text
+	}
+	// after the call: all iterations done, or stopped early
+	e.havocWrites(st, ws, "cbdone_"+sanitize(label))
+	havocCells(st, "cbdone")
+	e.assume(st.reach, tb.Le(tb.Int(0), n))
+	if len(frameRegs) > 0 {
+		if f := e.loopFrame(fr, st, frameRegs); f != nil {
+			e.assume(st.reach, f)
+		}
+	}
+	stopped := tb.Fresh("cbstopped", "Bool")
+	doneInv, stopInv := tb.True(), tb.True()
+	for _, inv := range cb.invs {
+		if t, err := invEnv(st, n).evalBool(inv.expr); err == nil {
+			doneInv = tb.And(doneInv, t)
+		}
+	}
+	for _, cl := range cb.stopped {
+		if t, err := invEnv(st, tb.Fresh("cbstopidx", "Int")).evalBool(cl.expr); err == nil {
+			stopInv = tb.And(stopInv, t)
+		}
+	}
+	if len(cb.stopped) == 0 && tb.isTrue(cont) {
+		stopped = tb.False()
+	}
+	e.assume(st.reach, tb.Ite(stopped, stopInv, doneInv))
+	if len(e.tupleTypes(x.Type())) > 0 {
+		e.havocResults(fr, x, "r_"+callee.Name())
+	} else {
+		fr.vals[x] = Val{T: []*Term{tb.True()}}
 	}
 	return true
 }
